@@ -63,6 +63,9 @@ def run_one(rid):
     try:
         rc, o = sh("git apply %s" % os.path.join(d, "patch.diff"), cwd=wt)
         if rc != 0:
+            # the tree moved on since the variant was recorded (fix: commits): three-way merge
+            rc, o = sh("git apply --3way %s" % os.path.join(d, "patch.diff"), cwd=wt)
+        if rc != 0:
             return rid, {"error": "patch does not apply on current HEAD: " + o[-200:]}
         res = {}
         for p in PROPS:
